@@ -43,7 +43,7 @@ CHECKS = {
         technique=TECH + '; user actor scheduled between reads'),
     'C11': dict(level='exploration', ref='4 C11',
         text='`list [X:] [matcher] [~ N]` issued at scheduler-chosen points of streaming histories (selected connection or none, N absent/0/1../beyond, repeated); listed lines, last-N rule and the '
-             'matched/didn\'t/not-checked identity are compared with the reference evaluation of the recorded ground-truth history; side effects are detected by the filter/selection/breakpoint model on subsequent traffic. Every sixth run lists histories that contain messages on objects the tool cannot resolve, with and without a selected connection. A quarter of the runs (lanes 12-15) drive the same session model through the GDB world: the real plugin.py command and message paths on the fake gdb, commands typed at user interrupts.',
+             'matched/didn\'t/not-checked identity are compared with the reference evaluation of the recorded ground-truth history; side effects are detected by the filter/selection/breakpoint model on subsequent traffic. Every sixth run lists histories that contain messages on objects the tool cannot resolve, with and without a selected connection. In the GDB lanes a seventh of the sessions carry a Ctrl-C inside the output of a listing or help command: the abandoned command must leave filter, breakpoint, selection and the record as they were, which the rest of the session shows. A quarter of the runs (lanes 12-15) drive the same session model through the GDB world: the real plugin.py command and message paths on the fake gdb, commands typed at user interrupts.',
         note='Trusted: reference matcher (queries with a don\'t-care message are checked for inclusion only and counted).',
         technique=TECH + '; user actor scheduled between reads'),
     'C12': dict(level='exploration', ref='4 C12',
